@@ -20,6 +20,7 @@ type KnownEntry struct {
 	What     string `json:"what"`
 	Status   string `json:"status"` // open | fixed
 	Commit   string `json:"commit,omitempty"`
+	Fixed    string `json:"fixed,omitempty"`
 }
 
 type Run struct {
@@ -173,6 +174,7 @@ func (r *Run) newInterp(ld *Loaded, fn *ssa.Function, d Directives, solver *Solv
 		in.maxDepth = d.Depth
 	}
 	in.timersNeverFire = d.NoTimers
+	in.permuteSites = d.Permute
 	return in
 }
 
@@ -755,6 +757,7 @@ func vLog(name string, v uint64)  { fmt.Printf("VERIF-LOG %%s %%d\n", name, v) }
 func vSymbolic() bool             { return false }
 func vSplit(c bool)               {}
 func vStats(name string)          {}
+func vMapOrder(run int)           {}
 func vParam(name string, def int) int {
 	vLoad()
 	if v, ok := vState.cex.Params[name]; ok {
